@@ -14,6 +14,7 @@ CONSTANTS
   Ckpts = {"soft", "onehot", "probF", "probT"}
   Moves = "all"
   InitAlpha = "ctor"
+  CtorOpts = "all"
   AllowKF = FALSE
   Grads = {TRUE, FALSE}
   SelHows = {}
